@@ -16,7 +16,7 @@
    the three availability conditions. The code proved is the repaired one (fix commits F1–F3, see known_findings.json). *)
 From AL Require Import Base Api Mutex RwLock RwApi RwInv RwLive.
 From AL.Tie Require Tie_Raw Tie_RwLock Tie_RwFutures Tie_Mutex.
-From AL.Sched Require RwReadEvSched RwReadEvInv RwReadEvOrd RwWriteEvSched RwWriteEvInv RwWriteEvOrd RwComp MutexEvSched MutexEvInv MutexEvOrd.
+From AL.Sched Require RwReadEvSched RwReadEvInv RwReadEvOrd RwWriteEvSched RwWriteEvInv RwWriteEvOrd RwComp RwComp3 MutexEvSched MutexEvInv MutexEvOrd.
 
 Theorem C06_idle_nothing_pending : forall ops : list rop, N.of_nat (length ops) < RLIVE_BOUND ->
   let x := rrun ops in quiescent x -> r_guards x = [] -> no_unpolled_upgrade x ->
@@ -124,6 +124,60 @@ Example C06_sched_composed_nonvacuous :
   option_map RwWriteEvSched.fpc (RwWriteEvSched.getf (RwComp.cW s) 0) = Some RwWriteEvSched.WGone.
 Proof. exact RwComp.rw_comp_example. Qed.
 
+(* ---------- ALL THREE machines together (Sched/RwComp3.v): reader side, writer side and the inner mutex ---------- *)
+(* The product of the three micro-step machines, with counters for what is alive outside them (read guards, upgradable
+   guards, lock futures that hold the mutex and have not yet taken their next step, threads that owe the mutex's
+   fetch_sub(1)). Every component of a composed run is a run of its machine; the coherence invariant ties the two copies
+   of WRITER_BIT, the reader count and the guards of the inner mutex to what is alive. For EVERY composed schedule:
+   (a) nothing alive (no read / upgradable / write guard, nobody past the mutex, nobody owing an unlock or in the middle of
+       an acquisition) and all three sides at rest  ==>  NOTHING waits: no read(), no write() / upgrade(), and no write() /
+       upgradable_read() queued on the inner mutex;
+   (b) nobody past the inner mutex and the reader side at rest  ==>  no read() waits;
+   (c) no upgradable guard, nobody past the mutex, nobody owing an unlock / mid-acquisition, the mutex side at rest  ==>
+       nothing waits for the inner mutex;
+   (d) no reader of any kind left and the writer side at rest  ==>  no write() / upgrade() waits. *)
+Theorem C06_sched_all_idle : forall (nr nw nm : nat) (sched : list RwComp3.xact),
+  let s := RwComp3.xrun nr nw nm sched in
+  RwComp3.k_rd s = 0 -> RwComp3.k_up s = 0 -> RwComp3.k_owe s = 0 -> RwComp3.k_hold s = 0 -> RwComp3.no_writer_alive s ->
+  RwReadEvSched.quiescentb (RwComp3.kR s) = true -> RwWriteEvSched.quiescentb (RwComp3.kW s) = true -> MutexEvSched.quiescentb (RwComp3.kM s) = true ->
+  existsb RwReadEvSched.parkedb (RwReadEvSched.g_futs (RwComp3.kR s)) = false /\
+  existsb RwWriteEvSched.parkedb (RwWriteEvSched.g_futs (RwComp3.kW s)) = false /\
+  existsb MutexEvSched.parked (MutexEvSched.g_futs (RwComp3.kM s)) = false.
+Proof. exact RwComp3.rw3_idle. Qed.
+Theorem C06_sched_all_readers : forall (nr nw nm : nat) (sched : list RwComp3.xact),
+  let s := RwComp3.xrun nr nw nm sched in
+  RwWriteEvSched.g_act (RwComp3.kW s) = false -> RwReadEvSched.quiescentb (RwComp3.kR s) = true ->
+  existsb RwReadEvSched.parkedb (RwReadEvSched.g_futs (RwComp3.kR s)) = false.
+Proof. exact RwComp3.rw3_readers. Qed.
+Theorem C06_sched_all_mutex : forall (nr nw nm : nat) (sched : list RwComp3.xact),
+  let s := RwComp3.xrun nr nw nm sched in
+  RwComp3.k_up s = 0 -> RwComp3.k_owe s = 0 -> RwComp3.k_hold s = 0 -> RwWriteEvSched.g_act (RwComp3.kW s) = false ->
+  MutexEvSched.quiescentb (RwComp3.kM s) = true -> existsb MutexEvSched.parked (MutexEvSched.g_futs (RwComp3.kM s)) = false.
+Proof. exact RwComp3.rw3_mutex_free. Qed.
+Theorem C06_sched_all_writer : forall (nr nw nm : nat) (sched : list RwComp3.xact),
+  let s := RwComp3.xrun nr nw nm sched in
+  RwComp3.k_rd s = 0 -> RwComp3.k_up s = 0 -> RwWriteEvSched.quiescentb (RwComp3.kW s) = true ->
+  existsb RwWriteEvSched.parkedb (RwWriteEvSched.g_futs (RwComp3.kW s)) = false /\
+  (RwComp3.no_writer_alive s -> RwWriteEvSched.g_act (RwComp3.kW s) = false /\ RwReadEvSched.g_wb (RwComp3.kR s) = false).
+Proof. exact RwComp3.rw3_writer_side. Qed.
+(* the coherence invariant itself, and: each component of a composed run is a run of its own machine *)
+Theorem C06_sched_all_coherent : forall (nr nw nm : nat) (sched : list RwComp3.xact),
+  RwComp3.Comp nr nw nm (RwComp3.xrun nr nw nm sched) /\ RwComp3.Coh (RwComp3.xrun nr nw nm sched).
+Proof. exact RwComp3.xrun_inv. Qed.
+Example C06_sched_all_nonvacuous :
+  let mid := RwComp3.xrun 2 1 2 (firstn 19 RwComp3.rw3_example_schedule) in
+  let fin := RwComp3.xrun 2 1 2 RwComp3.rw3_example_schedule in
+  (RwComp3.k_rd mid = 1 /\ map RwReadEvSched.fpc (RwReadEvSched.g_futs (RwComp3.kR mid)) = [RwReadEvSched.RDone; RwReadEvSched.RParked] /\
+   map RwWriteEvSched.fpc (RwWriteEvSched.g_futs (RwComp3.kW mid)) = [RwWriteEvSched.WParked] /\
+   map MutexEvSched.fpc (MutexEvSched.g_futs (RwComp3.kM mid)) = [MutexEvSched.PDone; MutexEvSched.PParked] /\
+   MutexEvSched.g_w (RwComp3.kM mid) = 1 /\ RwReadEvSched.g_wb (RwComp3.kR mid) = true) /\
+  (RwComp3.k_rd fin = 0 /\ RwComp3.k_up fin = 0 /\ RwComp3.k_owe fin = 0 /\ RwComp3.k_hold fin = 0 /\
+   RwReadEvSched.quiescentb (RwComp3.kR fin) = true /\ RwWriteEvSched.quiescentb (RwComp3.kW fin) = true /\ MutexEvSched.quiescentb (RwComp3.kM fin) = true /\
+   map RwReadEvSched.fpc (RwReadEvSched.g_futs (RwComp3.kR fin)) = [RwReadEvSched.RDone; RwReadEvSched.RDone] /\
+   map RwWriteEvSched.fpc (RwWriteEvSched.g_futs (RwComp3.kW fin)) = [RwWriteEvSched.WGone] /\
+   map MutexEvSched.fpc (MutexEvSched.g_futs (RwComp3.kM fin)) = [MutexEvSched.PDone; MutexEvSched.PDone] /\ MutexEvSched.g_w (RwComp3.kM fin) = 0).
+Proof. exact RwComp3.rw3_example. Qed.
+
 (* writers and upgradable readers queue on the inner mutex, which is the Mutex of C05: its schedule-level theorem
    (clause (c): with the inner mutex free nothing waits on it) is C05_sched, restated here for the record *)
 Theorem C06_sched_inner_mutex : forall (sched : list MutexEvSched.act) (nfuts : nat),
@@ -148,3 +202,8 @@ Print Assumptions C06_sched_readers_prefix_refuted.
 Print Assumptions C06_sched_writer.
 Print Assumptions C06_sched_writer_prefix_refuted.
 Print Assumptions C06_sched_composed.
+Print Assumptions C06_sched_all_idle.
+Print Assumptions C06_sched_all_readers.
+Print Assumptions C06_sched_all_mutex.
+Print Assumptions C06_sched_all_writer.
+Print Assumptions C06_sched_all_coherent.
